@@ -11,8 +11,13 @@ primitives) and must reproduce outcome class, negotiated names, every message se
 the real code fed to the exchange hash (captured by a recording hash); `_choose_alg` is enumerated against
 `chooseAlg`.
 Oracle: on the real code, no effective edit ever ends in a completed handshake, a completed handshake has the same
-session id, K, names and hash input on both sides, names are the first client preference the server supports,
-out-of-range DH values are answered with ProtocolError, and shifted field boundaries never give the same hash input.
+session id, K, names and hash input on both sides, names (the server host key algorithm included) are the first client
+preference the server supports, out-of-range DH values are answered with ProtocolError, shifted field boundaries never
+give the same hash input, a handshake that fails does so with an SSH error class and never with a raw Python
+exception; a connection of a listener signs with the host key algorithm it negotiated itself whatever other
+connections of that listener negotiate meanwhile (two real connections sharing one options object, interleaved by
+hand), and a client never completes against a server that answers with a host key of another type than negotiated or
+with a signature made with another signature algorithm (a real client against a real server made to lie).
 """
 
 from __future__ import annotations
@@ -40,13 +45,18 @@ PROPERTY = 'C03'
 MANIFEST = {
     'text': 'Lean 4 theorems about an executable three-party model (client, server, on-path editor delivering ANY '
             'bytes) of asyncssh\'s first key exchange, over tables and checks regenerated from the code on every run: '
-            '_choose_alg is client_list.find?(in server_list) from both roles (choose_first_client_pref) and all seven '
-            'negotiated names agree (negotiated_names_agree); the byte string fed to the exchange hash determines '
+            '_choose_alg is client_list.find?(in server_list) from both roles (choose_first_client_pref) and all eight '
+            'negotiated names, the server host key algorithm included, agree (negotiated_names_agree, '
+            'host_key_alg_first_client_pref); the byte string fed to the exchange hash determines '
             'V_C,V_S,I_C,I_S,K_S,gex request,p,g,e,f,K for every message form (hash_input_injective*, '
             'gex_request_form_bound); under an injective hash and an ideal host-key signature, a client that accepts '
-            'holds exactly the record the server signed (no_downgrade, no_downgrade_fields, session_id_agree); DH '
-            'values outside [1,p-1] are rejected (dh_range*). Tied to the code by the translator and by live edited '
-            'handshakes whose hash inputs, messages, names and outcomes the model must reproduce.',
+            'holds exactly the record the server signed (no_downgrade, no_downgrade_fields, session_id_agree), its '
+            'host key fits the negotiated host key algorithm and both signatures name that algorithm\'s signature '
+            'algorithm (host_key_alg_bound); a second connection of the same listener cannot change the algorithm a '
+            'connection signs with (listener_signs_with_own_alg; the behaviour before the repairs is kept as '
+            'serverStepPreFix / clientVerifyPreFix with machine-checked witnesses); DH values outside [1,p-1] are '
+            'rejected (dh_range*). Tied to the code by the translator (incl. host_key_alg_bound_in_code) and by live '
+            'edited handshakes whose hash inputs, messages, names and outcomes the model must reproduce.',
     'note': 'hash collision resistance and signature unforgeability are hypotheses (never axioms); GSS key exchange '
             'is not available here (no gssapi) and only its names are listed; cleartext packet framing is C02\'s '
             'subject; re-keying after the first exchange is C11\'s',
@@ -104,6 +114,60 @@ def host_keys() -> Tuple[Any, Any]:
         _KEYS['a'] = asyncssh.generate_private_key('ssh-ed25519')
         _KEYS['b'] = asyncssh.generate_private_key('ssh-ed25519')
     return _KEYS['a'], _KEYS['b']
+
+
+def rsa_host_key() -> Any:
+    """a second host key of another type (one RSA key serves seven host key algorithm names)"""
+    if 'rsa' not in _KEYS:
+        _KEYS['rsa'] = asyncssh.generate_private_key('ssh-rsa', key_size=2048)
+    return _KEYS['rsa']
+
+
+def small_rsa_blob() -> bytes:
+    """public blob of an RSA key too small to encrypt the secret of any RSA key exchange method"""
+    if 'small' not in _KEYS:
+        _KEYS['small'] = asyncssh.generate_private_key('ssh-rsa', key_size=1024).public_data
+    return _KEYS['small']
+
+
+RSA_ALGS = ['rsa-sha2-256', 'rsa-sha2-512', 'ssh-rsa']
+
+
+def key_algs_of_blob(blob: bytes) -> List[str]:
+    """the host key algorithms a host key blob can be used with (a primitive of the model: `keyAlgs`)"""
+    pk = importlib.import_module('asyncssh.public_key')
+    try:
+        return [a.decode('latin1') for a in pk.decode_ssh_certificate(blob).host_key_algorithms]
+    except Exception:
+        pass
+    try:
+        return [a.decode('latin1') for a in pk.decode_ssh_public_key(blob).sig_algorithms]
+    except Exception:
+        return []
+
+
+def rsa_encrypt_error(trans: bytes) -> str:
+    """why the client cannot encrypt to a transient key blob (a primitive of the model: `rsaEncrypt`)"""
+    pk = importlib.import_module('asyncssh.public_key')
+    rsa = importlib.import_module('asyncssh.rsa')
+    try:
+        key = pk.decode_ssh_public_key(trans)
+    except Exception:
+        return 'proto'
+    return 'kexfail' if isinstance(key, rsa.RSAKey) else 'proto'
+
+
+def split_sig(sig: bytes) -> Tuple[Optional[bytes], bytes]:
+    """(algorithm name, rest) of a signature blob"""
+    if len(sig) >= 4 and int.from_bytes(sig[:4], 'big') <= len(sig) - 4:
+        n = int.from_bytes(sig[:4], 'big')
+        return sig[4:4 + n], sig[4 + n:]
+    return None, sig
+
+
+SSH_ERROR_CLASSES = set(n for n in dir(asyncssh) if isinstance(getattr(asyncssh, n), type)
+                        and issubclass(getattr(asyncssh, n), asyncssh.Error))
+HARNESS_OUTCOMES = {'ok', 'stall', 'open', 'closed', 'cancelled'}
 
 
 # ---------------------------------------------------------------------------
@@ -182,8 +246,11 @@ class HsEditor:
     'kexinit', 'newkeys' or ('kex', i) (i-th kex-range message of that direction); fn maps the line / payload
     to the bytes / list of payloads delivered instead."""
 
-    def __init__(self, edit: Optional[Tuple[str, Any, Callable[[bytes], Any]]]):
-        self.edit = edit
+    def __init__(self, edit: Any):
+        # one edit, or a list of edits (at most one per (direction, target)); `self.edit` is the one being applied
+        self.edits: List[Tuple[str, Any, Callable[[bytes], Any]]] = \
+            list(edit) if isinstance(edit, list) else ([edit] if edit else [])
+        self.edit: Optional[Tuple[str, Any, Callable[[bytes], Any]]] = None
         self.n = {C2S: 0, S2C: 0}
         self.clear = {C2S: True, S2C: True}
         self.kexidx = {C2S: 0, S2C: 0}
@@ -201,6 +268,7 @@ class HsEditor:
         if idx == 0:
             self.sent[direction].append(data)
             out = data
+            self.edit = next((e for e in self.edits if e[0] == direction and e[1] == 'version'), None)
             if self.edit and self.edit[0] == direction and self.edit[1] == 'version':
                 out = self.edit[2](data)
                 self.applied = True
@@ -227,6 +295,7 @@ class HsEditor:
         elif 30 <= t <= 49:
             target = ('kex', self.kexidx[direction])
             self.kexidx[direction] += 1
+        self.edit = next((e for e in self.edits if e[0] == direction and e[1] == target), None)
         if self.edit and self.edit[0] == direction and self.edit[1] == target:
             try:
                 res = self.edit[2](payload)
@@ -263,6 +332,12 @@ def default_cfg(kex: List[str]) -> Dict[str, List[str]]:
             'mac': ['hmac-sha2-256', 'hmac-sha1'], 'cmp': ['none']}
 
 
+def server_keys_for(scfg: Dict[str, List[str]]) -> List[Any]:
+    """the host keys of a server configuration: the Ed25519 key, and the RSA key when the list names an RSA algorithm"""
+    ka, _kb = host_keys()
+    return [ka] + ([rsa_host_key()] if any(a in RSA_ALGS for a in scfg['hostkey']) else [])
+
+
 async def run_session(ccfg: Dict[str, List[str]], scfg: Dict[str, List[str]],
                       edit: Optional[Tuple[str, Any, Callable[[bytes], Any]]] = None,
                       trust_other_key: bool = False) -> Dict[str, Any]:
@@ -273,19 +348,28 @@ async def run_session(ccfg: Dict[str, List[str]], scfg: Dict[str, List[str]],
     ed = HsEditor(edit)
     hub.filter = ed
     RecServer.lost = []
-    out: Dict[str, Any] = {'ccfg': ccfg, 'scfg': scfg, 'editor': ed}
-    sopts = dict(server_host_keys=[ka], kex_algs=scfg['kex'], encryption_algs=scfg['enc'], mac_algs=scfg['mac'],
+    skeys = server_keys_for(scfg)
+    out: Dict[str, Any] = {'ccfg': ccfg, 'editor': ed}
+    sopts = dict(server_host_keys=skeys, kex_algs=scfg['kex'], encryption_algs=scfg['enc'], mac_algs=scfg['mac'],
                  compression_algs=scfg['cmp'], server_version='Srv_1.0')
-    copts = dict(known_hosts=([(kb if trust_other_key else ka).convert_to_public()], [], []),
+    trusted = [kb] if trust_other_key else skeys
+    copts = dict(known_hosts=([k.convert_to_public() for k in trusted], [], []),
                  kex_algs=ccfg['kex'], encryption_algs=ccfg['enc'], mac_algs=ccfg['mac'],
                  compression_algs=ccfg['cmp'], server_host_key_algs=ccfg['hostkey'], client_version='Cli_1.0')
     with KexTap() as kt, capture.KeyTap() as keys:
         try:
-            coro, sconn, hub = await pair.make_pair(server_factory=RecServer, server_opts=sopts, client_opts=copts,
-                                                    hub=hub, connect=False)
+            shared = await pair.make_server_options(RecServer, **sopts)
+            # the server offers the algorithms of its keys, in the order of its key table
+            scfg = dict(scfg, hostkey=[a.decode() for a in shared.server_host_keys.keys()])
+            out['hostkey_map'] = {a.decode(): kp.public_data for a, kp in shared.server_host_keys.items()}
+            coro, sconn, hub = await pair.make_pair(server_factory=RecServer, server_opts=dict(shared_options=shared),
+                                                    client_opts=copts, hub=hub, connect=False)
         except Exception as e:
             out['setup_error'] = f'{type(e).__name__}: {e}'
+            out['scfg'] = scfg
             return out
+        out['scfg'] = scfg
+        out['trusted_blobs'] = [k.public_data for k in trusted]
         task = asyncio.ensure_future(coro)
         idle, last, idle_since = 0, (-1, -1), None
         for _ in range(200000):
@@ -465,8 +549,29 @@ def kexinit_edits(rng: random.Random) -> List[Tuple[str, Callable[[bytes], Any],
         ('as-ignore', lambda p: bytes([W.MSG_IGNORE]) + W.sstr(p[1:40]), 'effective'),
         ('padding-only', lambda p: ('frame', W.frame(p, bytes(rng.randrange(256) for _ in range(
             (-(5 + len(p)) % 8) + 8 * rng.randrange(1, 4))))), 'neutral'),
-    ]
+        ('kex-only-non-ascii', with_k(setf('kex', [b'\xc3\xa9', b'caf\xe9'])), 'effective'),
+        ('hostkey-only-non-ascii', with_k(setf('hostkey', [b'ssh-\xff'])), 'effective'),
+        ('hostkey-rotate', with_k(rotate('hostkey')), 'effective'),
+        ('hostkey-drop-first', with_k(drop_first('hostkey')), 'effective'),
+        ('hostkey-keep-last', with_k(lambda k: k.update(hostkey=k['hostkey'][-1:])), 'effective'),
+        ('empty-payload', lambda p: b'', 'effective'),
+    ] + [(l, f, 'effective') for l, f in generic_msgs()]
     return eds
+
+
+def generic_msgs() -> List[Tuple[str, Callable[[bytes], Any]]]:
+    """a message replaced by a transport-generic one (IGNORE, UNIMPLEMENTED, DEBUG), well-formed or not"""
+    return [
+        ('as-ignore-empty', lambda p: bytes([W.MSG_IGNORE])),
+        ('as-ignore-trailing', lambda p: bytes([W.MSG_IGNORE]) + W.sstr(b'x') + b'y'),
+        ('as-unimplemented', lambda p: bytes([3]) + (7).to_bytes(4, 'big')),
+        ('as-unimplemented-short', lambda p: bytes([3, 0, 0])),
+        ('as-debug', lambda p: bytes([4, 1]) + W.sstr('h\u00e9llo'.encode()) + W.sstr(b'en')),
+        ('as-debug-bad-utf8', lambda p: bytes([4, 0]) + W.sstr(b'\xff\xfe') + W.sstr(b'')),
+        ('as-debug-bad-lang', lambda p: bytes([4, 0]) + W.sstr(b'ok') + W.sstr(b'\xc3\xa9')),
+        ('as-debug-short', lambda p: bytes([4, 0]) + W.sstr(b'ok')),
+        ('as-disconnect-bad-utf8', lambda p: bytes([1]) + (2).to_bytes(4, 'big') + W.sstr(b'\xc0\x80') + W.sstr(b'')),
+    ]
 
 
 def kexmsg_edits(rng: random.Random, form: str, name: str, other_key: bytes, p_hint: int
@@ -530,6 +635,18 @@ def kexmsg_edits(rng: random.Random, form: str, name: str, other_key: bytes, p_h
                     (f'{field}-extend', with_f(setv(field, lambda v: v + b'\0')), 'effective')]
             if field == 'hostkey':
                 eds.append(('hostkey-other', with_f(setv(field, lambda v: other_key)), 'effective'))
+                eds.append(('hostkey-other-type', with_f(setv(field, lambda v: rsa_host_key().public_data)), 'effective'))
+            if field == 'trans':
+                eds.append(('trans-ed25519', with_f(setv(field, lambda v: other_key)), 'effective'))
+                eds.append(('trans-small-rsa', with_f(setv(field, lambda v: small_rsa_blob())), 'effective'))
+            if field == 'sig':
+                def rename(v: bytes) -> bytes:
+                    name, rest = split_sig(v)
+                    return W.sstr({b'ssh-ed25519': b'ssh-rsa', b'rsa-sha2-512': b'ssh-rsa',
+                                   b'rsa-sha2-256': b'ssh-rsa'}.get(name or b'', b'rsa-sha2-256')) + rest
+                eds.append(('sig-other-alg', with_f(setv(field, rename)), 'effective'))
+                eds.append(('sig-no-alg', with_f(setv(field, lambda v: v[:3])), 'effective'))
+    eds += [(l, f, 'effective') for l, f in generic_msgs()]
     if form == 'gex' and name == 'request':
         eds.append(('to-old-request', lambda p: bytes([30]) + p[5:9], 'effective'))
     return eds
@@ -558,10 +675,29 @@ KEXMSG_TARGETS = {
 }
 
 
+def strip_strict(p: bytes) -> bytes:
+    k = W.parse_kexinit(p)
+    k['kex'] = [a for a in k['kex'] if not a.startswith(b'kex-strict')]
+    return W.build_kexinit(k)
+
+
+def edit_of(e: Dict[str, Any]) -> Any:
+    """what `run_session` takes: the edit of a generated case, preceded by its preparing edit if it has one"""
+    main = (e['dir'], e['target'], e['fn'])
+    return [e['pre'], main] if e.get('pre') else main
+
+
 def gen_edit_case(rng: random.Random, alg: str, other_key: bytes) -> Dict[str, Any]:
     """choose one edit for a handshake that negotiates `alg`"""
     form = form_of(alg)
     r = rng.random()
+    if r < 0.06:
+        # a transport-generic message in place of a key-exchange message, to an endpoint whose peer did not ask
+        # for strict key exchange (otherwise the message is refused before its body is looked at)
+        d, i, name = rng.choice(KEXMSG_TARGETS[form])
+        label, fn = rng.choice(generic_msgs())
+        return {'alg': alg, 'dir': d, 'target': ('kex', i), 'label': f'{name}:nonstrict-{label}', 'fn': fn,
+                'expect': 'effective', 'pre': (d, 'kexinit', strip_strict)}
     if r < 0.18:
         d = rng.choice([C2S, S2C])
         label, fn, exp = rng.choice(version_edits(rng, d))
@@ -640,28 +776,53 @@ def session_lines(s: Dict[str, Any]) -> Tuple[List[str], List[Tuple[str, Dict[st
         k_own = chunks[-1] if chunks else None
         if role == 'client':
             _salg, shinput, _sch = s['kex']['server']
-            script['tk'] = hx(s['hostkey_blob'])
+            script['tk'] = ','.join(hx(b) for b in s.get('trusted_blobs', [s['hostkey_blob']]))
             script['vh'] = hx(shinput) if shinput is not None else 'none'
             ssent = [p for p in ed.sent[S2C][1:] if p and 30 <= p[0] <= 49]
             sform = form_of(s['kex']['server'][0]) if s['kex']['server'][0] else None
-            sig = None
+            sig = signer = None
             if sform:
                 for p in ssent:
                     try:
                         _nm, f = W.parse_kexmsg(sform, p)
                         sig = f.get('sig', sig)
+                        signer = f.get('hostkey', signer)
                     except W.Bad:
                         pass
             script['vs'] = hx(sig) if sig is not None else 'none'
+            script['vk'] = hx(signer) if signer is not None else 'none'      # the key that made that signature
+            # the host key blob the client was handed, and what it can be used with
+            got_hk = None
+            if form:
+                for p in ed.delivered[S2C]:
+                    if p and 30 <= p[0] <= 49:
+                        try:
+                            _nm, f = W.parse_kexmsg(form, p)
+                            got_hk = f.get('hostkey', got_hk)
+                        except W.Bad:
+                            pass
+            script['ka'] = _names(key_algs_of_blob(got_hk)) if got_hk is not None else '.'
             script['e'] = str(parsed['init']['e']) if 'init' in parsed and 'e' in parsed['init'] else 'none'
             script['qc'] = hx(parsed['init']['qc']) if 'init' in parsed and 'qc' in parsed['init'] else '-'
             script['kc'] = hx(k_own) if k_own is not None else 'none'
             if 'secret' in parsed:
                 script['rsa'] = hx(parsed['secret']['enck']) + ':' + (hx(k_own) if k_own is not None else '00')
+            elif form == 'rsa':
+                trans = None
+                for p in ed.delivered[S2C]:
+                    if p and p[0] == 30:
+                        try:
+                            _nm, f = W.parse_kexmsg(form, p)
+                            trans = f.get('trans', trans)
+                        except W.Bad:
+                            pass
+                if trans is not None:
+                    script['rsa'] = 'err:' + rsa_encrypt_error(trans)
         else:
-            script['hk'] = hx(s['hostkey_blob'])
+            script['hk'] = ','.join(f'{a}:{hx(b)}' for a, b in s.get('hostkey_map', {}).items()) or \
+                'ssh-ed25519:' + hx(s['hostkey_blob'])
             rep = parsed.get('reply') or parsed.get('done') or {}
-            script['sig'] = hx(rep['sig']) if 'sig' in rep else '-'
+            script['sigraw'] = hx(split_sig(rep['sig'])[1]) if 'sig' in rep else '-'
             script['f'] = str(rep['f']) if 'f' in rep else 'none'
             script['qs'] = hx(rep['qs']) if 'qs' in rep else 'none'
             script['ks'] = hx(k_own) if k_own is not None else 'none'
@@ -750,6 +911,7 @@ def compare_machine(model: str, real: Dict[str, Any], role: str, peer_done: bool
         # a client that has accepted and then loses the peer reports the peer's problem
         if not (phase in ('accepted', 'sentnewkeys') and got not in ('ok',)):
             return f'outcome: model {phase}, real {got}'
+    neg_now, neg_acc = neg_now.split('/')[0], neg_acc.split('/')[0]        # the part after `/` is the host key algorithm
     mkex = neg_now.split(',')[0] if neg_now != '-' else None
     if (mkex or None) != (real['kex'] or None):
         # `get_kex` runs before the cipher/MAC/compression choices: when those fail the real side has a kex object
@@ -815,9 +977,16 @@ async def _two_conns() -> Tuple[Any, Any]:
 def gen_list_cfg(rng: random.Random) -> Tuple[Dict[str, List[str]], Dict[str, List[str]]]:
     def sub(alpha: List[str], lo: int = 1) -> List[str]:
         return rng.sample(alpha, rng.randint(lo, min(4, len(alpha))))
-    c = {'kex': sub(KEX5), 'hostkey': ['ssh-ed25519'] if rng.random() < 0.8 else ['ssh-rsa', 'ssh-ed25519'],
-         'enc': sub(ENC5), 'mac': sub(MAC5), 'cmp': sub(CMP3)}
-    s = {'kex': sub(KEX5), 'hostkey': ['ssh-ed25519'], 'enc': sub(ENC5), 'mac': sub(MAC5), 'cmp': sub(CMP3)}
+    r = rng.random()
+    if r < 0.5:
+        chk, shk = ['ssh-ed25519'], ['ssh-ed25519']
+    elif r < 0.65:
+        chk, shk = ['ssh-rsa', 'ssh-ed25519'], ['ssh-ed25519']         # the server has no RSA key
+    else:                                                               # the server has both keys
+        chk = rng.sample(['ssh-ed25519'] + RSA_ALGS, rng.randint(1, 4))
+        shk = ['ssh-ed25519'] + RSA_ALGS
+    c = {'kex': sub(KEX5), 'hostkey': chk, 'enc': sub(ENC5), 'mac': sub(MAC5), 'cmp': sub(CMP3)}
+    s = {'kex': sub(KEX5), 'hostkey': shk, 'enc': sub(ENC5), 'mac': sub(MAC5), 'cmp': sub(CMP3)}
     return c, s
 
 
@@ -920,7 +1089,7 @@ def correspondence(ctx: Ctx) -> CorrResult:
         cfg = default_cfg([alg])
         if rng.random() < 0.25:                 # a second method on both lists: the edit may try to steer the choice
             cfg = default_cfg([alg, rng.choice([a for a in ('ecdh-sha2-nistp256', 'curve25519-sha256') if a != alg])])
-        cases.append({'ccfg': cfg, 'scfg': dict(cfg), 'edit': (e['dir'], e['target'], e['fn']),
+        cases.append({'ccfg': cfg, 'scfg': dict(cfg), 'edit': edit_of(e),
                       'label': f'{e["target"] if isinstance(e["target"], str) else "kex"}:{e["label"]}',
                       'alg': alg, 'expect': e['expect'], 'dir': e['dir']})
     for alg in kex_schedule(ctx, rng, 0):       # every method once without any edit
@@ -1215,7 +1384,7 @@ def oracle(ctx: Ctx) -> OracleResult:
             for _ in range(3):
                 e = gen_edit_case(rng, sus['alg'], kb.public_data)
                 cfg = default_cfg([sus['alg']])
-                cases.append({'ccfg': cfg, 'scfg': dict(cfg), 'edit': (e['dir'], e['target'], e['fn']),
+                cases.append({'ccfg': cfg, 'scfg': dict(cfg), 'edit': edit_of(e),
                               'label': f'{e["target"] if isinstance(e["target"], str) else "kex"}:{e["label"]}',
                               'alg': sus['alg'], 'expect': e['expect'], 'dir': e['dir']})
     # a fixed corpus of the edits the property names, on a fast method of every form
@@ -1248,7 +1417,7 @@ def oracle(ctx: Ctx) -> OracleResult:
     for alg in kex_schedule(ctx, rng, ctx.n(350, 2500)):
         e = gen_edit_case(rng, alg, kb.public_data)
         cfg = default_cfg([alg])
-        cases.append({'ccfg': cfg, 'scfg': dict(cfg), 'edit': (e['dir'], e['target'], e['fn']),
+        cases.append({'ccfg': cfg, 'scfg': dict(cfg), 'edit': edit_of(e),
                       'label': f'{e["target"] if isinstance(e["target"], str) else "kex"}:{e["label"]}',
                       'alg': alg, 'expect': e['expect'], 'dir': e['dir']})
     # unedited handshakes over random preference lists
